@@ -79,11 +79,12 @@ specs["C12"] = spec("C12", ["c12"], "VerifC12", "VerifC12Twin", ["ohp-out", "ohp
              [OH(), OH(sl=3, dl=3), OH(nh=202)], [OH(dl=1, sl=2), OH(nh=203), OH(pld=20, nh=6)], OH(ingress=0), level_text=LT, rsv0=1,
              extra_assume=["reserved bits of the common header and of the one-hop path are zero (the router re-serialises the whole SCION header of a one-hop packet)"],
              extra_notcov=["the clause that the reversed one-hop path is accepted by both routers (needs a two-router walk: see C03 in DESIGN.md)", "bfdSend.Send (BFD over one-hop paths)"])
-c08 = spec("C08", ["c08"], "VerifC08", "VerifC08Twin", ["processed", "forwarded", "emitted"], [], [], {"ingress": 1, "headroom": 64, "len": 72}, level_text="Bounded symbolic model checking of the real fast path and slow path on completely unconstrained byte strings of every listed length (no layout assumptions: the engine discovers the layouts by forking), on every ingress link kind: no feasible Go run-time panic (index, slice, nil, failed assertion, explicit panic) on any path, and every forwarded or emitted packet decodes with consistent header length, payload length and path pointers.",
+c08 = spec("C08", ["c08"], "VerifC08", "VerifC08Twin", ["processed"], [], [], {"ingress": 1, "headroom": 64, "len": 72}, level_text="Bounded symbolic model checking of the real fast path and slow path on completely unconstrained byte strings of every listed length (no layout assumptions: the engine discovers the layouts by forking), on every ingress link kind: no feasible Go run-time panic (index, slice, nil, failed assertion, explicit panic) on any path, and every forwarded or emitted packet decodes with consistent header length, payload length and path pointers.",
            extra_assume=[], extra_notcov=["byte strings longer than 80 bytes (thorough) / the listed lengths (quick); STUN messages and internalLink.processPacket (package udpip)", "SCMP authentication on"])
-c08["entries"] = [{"func": "VerifC08", "params": {"ingress": -1, "headroom": 64, "len": n}, "tiers": ["quick", "thorough"]} for n in (0, 1, 11, 12, 13, 35, 36, 40, 44, 68, 72)] + \
+c08["entries"] = [{"func": "VerifC08", "params": {"ingress": -1, "headroom": 64, "len": n}, "tiers": ["quick", "thorough"]} for n in (0, 1, 11, 12, 13, 35, 36, 40, 44)] + \
     [{"func": "VerifC08", "params": {"ingress": -1, "headroom": 64}, "sweep": {"len": {"thorough": [2, 80]}}, "tiers": ["thorough"]},
-     {"func": "VerifC08Twin", "params": {"ingress": 1, "headroom": 64, "len": 72}, "must_fail": True}]
+     {"func": "VerifC08Twin", "params": {"ingress": 1, "headroom": 64, "len": 72}, "must_fail": True, "tiers": ["thorough"]},
+     {"func": "VerifC08TwinDrop", "params": {"ingress": 1, "headroom": 64, "len": 36}, "must_fail": True}]
 c08["assumptions"] = [ASSUME[0]]
 c08["not_covered"] = c08["not_covered"][-2:]
 c08["term_opts"] = ["linsum", "sumabs"]
